@@ -121,3 +121,11 @@ Example C20_example_text : text_canon [97; 10; 98; 13; 10; 10] = [97; 13; 10; 98
 Proof. vm_compute. reflexivity. Qed.
 Example C20_example_nonce : chunk_nonce_impl (repeat 0 16) 2 <> chunk_nonce_rfc (repeat 0 16) 2.
 Proof. vm_compute. discriminate. Qed.
+
+(* decoding of the signature fields keeps signature expiration and key expiration apart (subpackets 3 and 9);
+   outside a key block the key expiration is dropped *)
+Example C20_example_sig_fields :
+  let body := [4; 19; 19; 8; 0; 18; 5; 2; 0; 0; 1; 0; 5; 3; 0; 0; 0; 7; 5; 9; 0; 0; 0; 9; 170; 187] in
+  option_map (fun f => (sf_created f, sf_sigexp f, sf_keyexp f)) (sig_body_fields true body) = Some (256, 7, 9) /\
+  option_map (fun f => (sf_created f, sf_sigexp f, sf_keyexp f)) (sig_body_fields false body) = Some (256, 7, 0).
+Proof. vm_compute. split; reflexivity. Qed.
